@@ -662,6 +662,9 @@ func main() {
 			// imports
 			for _, imp := range f.Imports {
 				path, _ := strconv.Unquote(imp.Path.Value)
+				if strings.HasSuffix(p.PkgPath, "/pkg/entities") {
+					break // entities only gets the access instrumentation; it starts no goroutines, timers or connections
+				}
 				if np, ok := importMap[path]; ok {
 					if imp.Name == nil {
 						imp.Name = ast.NewIdent(defaultName[path])
